@@ -21,6 +21,7 @@ for k in $(seq 0 $((N-1))); do
   d=/tmp/reg_$k
   for i in $(cat $d/mine.txt); do cp $d/verif/seeded/$i/meta.json /verif/seeded/$i/meta.json; done
   grep -h "caught\|missed\|NOT APPLY" $d/log.txt
+  mkdir -p /tmp/reg_logs; cp $d/log.txt /tmp/reg_logs/log_$k.txt
   git -C /repo worktree remove --force $d/repo
   rm -rf $d
 done
